@@ -98,12 +98,16 @@ def _ty_short(ty):
 
 
 def operand_origin(body, op, steps=40):
+    return operand_origin_ex(body, op, steps)[0]
+
+
+def operand_origin_ex(body, op, steps=40):
     """Where the value a panic-capable operation is applied to comes from, followed backwards through moves, borrows and
     identity-like calls inside the function: `field <type>.<field>`, `call <callee>`, `param <type>`, `const`, `local <type>`.
     The description does not mention the function it was found in or any variable name."""
     pl = op_place(op)
     if pl is None:
-        return "const"
+        return ("const", locals().get('cur'))
     cur, proj = pl["l"], [x for x in pl["p"] if x != "*"]
     for _ in range(steps):
         if proj and re.match(r"^\.\d+$", proj[0]):
@@ -112,7 +116,7 @@ def operand_origin(body, op, steps=40):
             if len(ds0) == 1 and ds0[0][1] != "term" and ds0[0][2]["rv"]["k"] == "agg" and ds0[0][2]["rv"].get("tuple"):
                 o2 = ds0[0][2]["rv"]["ops"][int(proj[0][1:])]
                 if op_place(o2) is None:
-                    return "const"
+                    return ("const", locals().get('cur'))
                 cur, proj = op_place(o2)["l"], [x for x in op_place(o2)["p"] if x != "*"] + proj[1:]
                 continue
         proj = [x for x in proj if not re.match(r"^\.(Some|Ok|Err)::\d+$", x) and not x.startswith("as ")]   # payload of an Option/Result: same value
@@ -120,16 +124,16 @@ def operand_origin(body, op, steps=40):
             fields = [x for x in proj if x.startswith(".")]
             idx = [x for x in proj if x.startswith("[")]
             if fields:
-                return "field %s%s" % (_ty_short(body.local_ty(cur)), "".join(fields))
+                return ("field %s%s" % (_ty_short(body.local_ty(cur)), "".join(fields)), locals().get('cur'))
             if idx:
-                return "element of %s" % _ty_short(body.local_ty(cur))
+                return ("element of %s" % _ty_short(body.local_ty(cur)), locals().get('cur'))
         ds = [d for d in M.def_sites(body, cur) if not body.is_cleanup(d[0])]
         if not ds:
             if 1 <= cur <= body.raw["arg_count"]:
-                return "param %s" % _ty_short(body.local_ty(cur))
-            return "local %s" % _ty_short(body.local_ty(cur))
+                return ("param %s" % _ty_short(body.local_ty(cur)), locals().get('cur'))
+            return ("local %s" % _ty_short(body.local_ty(cur)), locals().get('cur'))
         if len(ds) > 1:
-            return "local %s" % _ty_short(body.local_ty(cur))
+            return ("local %s" % _ty_short(body.local_ty(cur)), locals().get('cur'))
         b, i, d = ds[0]
         if i == "term":
             if fn_matches(d, *_PASS) and d["args"] and op_place(d["args"][0]) is not None:
@@ -137,20 +141,20 @@ def operand_origin(body, op, steps=40):
                 cur, proj = p2["l"], [x for x in p2["p"] if x != "*"]
                 continue
             f = d.get("fn") or {}
-            return "call %s" % (f.get("res") or f.get("path") or "indirect")
+            return ("call %s" % (f.get("res") or f.get("path") or "indirect"), locals().get('cur'))
         rv = d["rv"]
         if rv["k"] in ("use", "cast"):
             p2 = op_place(rv["op"])
             if p2 is None:
-                return "const"
+                return ("const", locals().get('cur'))
             cur, proj = p2["l"], [x for x in p2["p"] if x != "*"]
         elif rv["k"] in ("ref", "rawptr"):
             cur, proj = rv["pl"]["l"], [x for x in rv["pl"]["p"] if x != "*"]
         elif rv["k"] == "agg":
-            return "aggregate %s" % (rv.get("adt") or ("tuple" if rv.get("tuple") else "value"))
+            return ("aggregate %s" % (rv.get("adt") or ("tuple" if rv.get("tuple") else "value")), locals().get('cur'))
         else:
-            return "computed"
-    return "local %s" % _ty_short(body.local_ty(cur))
+            return ("computed", locals().get('cur'))
+    return ("local %s" % _ty_short(body.local_ty(cur)), locals().get('cur'))
 
 
 INDEXED = r"vec::Vec::<T, A>::(insert|split_off)$|slice::<impl \[T\]>::(split_at|split_at_mut)$|str::<impl str>::split_at$|ops::Index(Mut)?<.*>>::index(_mut)?$|string::String::truncate$"
